@@ -718,10 +718,10 @@ Note2: that Reed-Solomon can correct up to 2*resilience_rate erasures (eg, null 
                                 out.write(e["message_repaired"])
                             else:
                                 out.write(e["message"])
-                        # Append the rest of the file by copying from the original
+                        # Append the rest of the file by copying from the original, starting right after the last block we have just written (this is header_size when the ecc track covers the whole header, but the track may cover less: file grown since the ecc generation and --ignore_size, or ecc track cut short. The blocks without ecc are then copied unchanged, so that the output always has the size of the input)
                         with open(filepath, 'rb') as originalfile:
                             blocksize = 65535
-                            originalfile.seek(header_size)
+                            originalfile.seek(sum(len(e["message"]) for e in entry_asm))
                             buf = originalfile.read(blocksize)
                             while buf:
                                 out.write(buf)
